@@ -101,6 +101,63 @@ let parse_cases (ic : in_channel) : case list =
 
 let ios = int_of_string
 
+let big_fuel : nat = nat_of_int 300000
+
+let log_str (o : n outcome) : string =
+  match o with
+  | OkU -> "ok"
+  | OkE e -> Printf.sprintf "ok_%d" (int_of_n e)
+  | ErrNotFound -> "err_notfound"
+  | ErrExists -> "err_exists"
+  | Panic -> "panic"
+  | Invalid -> "invalid"
+
+let parse_op (st : string array) (at : int) : (n, z, n) op option =
+  match st.(at) with
+  | "new" -> Some (ONew (n_of_int (ios st.(at+1)), z_of_int (ios st.(at+2))))
+  | "con" -> Some (OConnect (nat_of_int (ios st.(at+1)), nat_of_int (ios st.(at+2)), n_of_int (ios st.(at+3))))
+  | "try" -> Some (OTryConnect (nat_of_int (ios st.(at+1)), nat_of_int (ios st.(at+2)), n_of_int (ios st.(at+3))))
+  | "dis" -> Some (ODisconnect (nat_of_int (ios st.(at+1)), n_of_int (ios st.(at+2))))
+  | "iso" -> Some (OIsolate (nat_of_int (ios st.(at+1))))
+  | _ -> None
+
+(* method: (is_filter, show_trace, pred on (source key, target key, value)) *)
+let parse_method (st : string array) (at : int) : bool * bool * (n -> n -> n -> bool) =
+  if Array.length st <= at then (false, false, (fun _ _ _ -> true))
+  else match st.(at) with
+  | "each" -> (false, true, (fun _ _ _ -> true))
+  | "filt" ->
+      let a = ios st.(at+1) and m = ios st.(at+2) in
+      (true, true, (fun s t e -> (3 * int_of_n s + 5 * int_of_n t + 7 * int_of_n e + a) mod m <> 0))
+  | "rej" ->
+      let k = ios st.(at+1) in
+      let l = List.init k (fun i -> (ios st.(at+2+3*i), ios st.(at+3+3*i), ios st.(at+4+3*i))) in
+      (true, true, (fun s t e -> not (List.mem (int_of_n s, int_of_n t, int_of_n e) l)))
+  | _ -> (false, false, (fun _ _ _ -> true))
+
+let tail (h : hp) (c : n cbst) (show_trace : bool) (has_script : bool) : string =
+  let b = Buffer.create 64 in
+  if show_trace then begin
+    Buffer.add_string b " | tr";
+    List.iter (fun ((s, t), e) -> Buffer.add_string b (fmt_edge h s t e)) (List.rev c.c_trace)
+  end;
+  if has_script then begin
+    Buffer.add_string b " | log";
+    List.iter (fun o -> Buffer.add_string b (" " ^ log_str o)) (List.rev c.c_log)
+  end;
+  Buffer.contents b
+
+let fmt_path (h : hp) (p : n edge list) : string =
+  let b = Buffer.create 64 in
+  Buffer.add_string b "r path ";
+  List.iter (fun ((s, t), e) -> Buffer.add_string b (fmt_edge h s t e)) p;
+  Buffer.add_string b " nodes";
+  List.iter (fun u -> Buffer.add_string b (" " ^ key_str h u)) (path_nodes p);
+  Buffer.add_string b (Printf.sprintf " len %d" (List.length p + 1));
+  Buffer.contents b
+
+let cmp_name (c : comparison) : string = match c with Lt -> "Less" | Eq -> "Equal" | Gt -> "Greater"
+
 let run_case (oc : out_channel) (c : case) : unit =
   Printf.fprintf oc "case %s\n" c.name;
   let directed = (c.cls = 'D') in
@@ -108,6 +165,8 @@ let run_case (oc : out_channel) (c : case) : unit =
   let h : hp ref = ref empty_heap in
   let apply (o : (n, z, n) op) : string =
     let (h1, r) = step !h o in h := h1; outcome_str r in
+  let script : (nat * (n, z, n) op list) list ref = ref [] in
+  let take_script () = let s = List.rev !script in script := []; s in
   List.iteri (fun si st ->
     let obs =
       match st.(0) with
@@ -125,6 +184,64 @@ let run_case (oc : out_channel) (c : case) : unit =
             Printf.sprintf "q conn=%d fa=%s" (b2i (is_connected_u keqb !h u k))
               (okey !h (find_adjacent keqb !h u k))
       | "snap" -> if directed then snap_d !h else snap_u !h
+      | "scr" ->
+          (match parse_op st 2 with
+           | Some o -> script := (nat_of_int (ios st.(1)), [o]) :: !script; "ok"
+           | None -> "bad-script-op")
+      | "cmp" ->
+          let a = nat_of_int (ios st.(1)) and b = nat_of_int (ios st.(2)) in
+          (match node_cmp Z.compare !h a b with
+           | Some c ->
+               Printf.sprintf "cmp eq=%d lt=%d le=%d cmp=%s pcmp=Some(%s)" (b2i (node_eqb keqb !h a b))
+                 (b2i (c = Lt)) (b2i (c <> Gt)) (cmp_name c) (cmp_name c)
+           | None -> "invalid")
+      | "loop" ->
+          let d = (match st.(1) with "out" -> DOut | "in" -> DIn | "adj" -> DAdj | _ -> if directed then DOut else DAdj) in
+          let sc = take_script () in
+          let cb = mk_cb step false (fun _ _ _ -> true) sc in
+          let ((c, h1), ok) = edge_loop cb big_fuel d cb0 !h (nat_of_int (ios st.(2))) O in
+          h := h1;
+          if ok then "r loop" ^ tail !h c true (sc <> []) else "fuel"
+      | "srch" ->
+          let algo = st.(1) and what = st.(2) and root = nat_of_int (ios st.(3)) in
+          let tr = (st.(4) = "1") in
+          let target = if st.(5) = "-" then None else Some (n_of_int (ios st.(5))) in
+          let d = if not directed then DAdj else if tr then DIn else DOut in
+          let (is_filter, show, pred) = parse_method st 6 in
+          let sc = take_script () in
+          let cb = mk_cb step is_filter pred sc in
+          let fin (stt : (n, z, n, n cbst) sst) (res : string) =
+            h := stt.s_heap; res ^ tail !h stt.s_cb show (sc <> []) in
+          let sres (stt, r) =
+            (match r with
+             | RNone -> fin stt "r none"
+             | RNode v -> fin stt ("r node " ^ key_str stt.s_heap v)
+             | RPath p -> fin stt (fmt_path stt.s_heap p)
+             | RPanic -> h := stt.s_heap; "panic"
+             | RFuel -> h := stt.s_heap; "fuel") in
+          (match algo with
+           | "bfs" | "dfs" | "pmin" | "pmax" ->
+               let k = (match algo with "bfs" -> KBfs | "dfs" -> KDfs | "pmin" -> KPfsMin | _ -> KPfsMax) in
+               (match what with
+                | "find" -> sres (search_find keqb cb Z.leb k d big_fuel !h cb0 root target)
+                | "path" -> sres (search_path keqb cb Z.leb k d big_fuel !h cb0 root target false)
+                | "cycle" -> sres (search_path keqb cb Z.leb k d big_fuel !h cb0 root target true)
+                | _ -> "bad-what")
+           | "pre" | "post" ->
+               let post = (algo = "post") in
+               (match what with
+                | "nodes" ->
+                    (match order_nodes keqb cb d post big_fuel !h cb0 root with
+                     | (stt, Some l) ->
+                         fin stt ("r nodes" ^ String.concat "" (List.map (fun u -> " " ^ key_str stt.s_heap u) l))
+                     | (stt, None) -> h := stt.s_heap; "fuel")
+                | "edges" ->
+                    (match order_edges keqb cb d post big_fuel !h cb0 root with
+                     | (stt, Some l) ->
+                         fin stt ("r edges " ^ String.concat "" (List.map (fun ((s, t), e) -> fmt_edge stt.s_heap s t e) l))
+                     | (stt, None) -> h := stt.s_heap; "fuel")
+                | _ -> "bad-what")
+           | _ -> "bad-algo")
       | other -> "unknown-step " ^ other in
     Printf.fprintf oc "%d %s\n" si obs) c.steps
 
